@@ -214,7 +214,7 @@ open Iora.Tsvc
 both collect sites pre-announce `_executingCallbacks` inside the same locked block; `safeRun`'s guard decrements, then
 locks/unlocks `_mutex`, then notifies; a timed-out `drain` restores `_accepting` under `_mutex`; `stop()` clears `_accepting` under
 `_mutex` before it halts the loop and publishes Stopped + not-accepting together after the join (F23); periodic invocations go
-through the cancel guard (F41). -/
+through the cancel guard (F41), which `cancel` closes for every periodic entry it finds — also one a `drain` sweep has already marked. -/
 theorem G_service_shapes :
     Gen.Timer.svcScheduleAtRechecksUnderLock = true ∧ Gen.Timer.svcSchedulePeriodicRechecksUnderLock = true ∧
     Gen.Timer.svcCancelOrder = ["lock", "records.find", "canceled=true", "periodic.erase"] ∧
@@ -224,7 +224,7 @@ theorem G_service_shapes :
     Gen.Timer.svcSafeRunOrder = ["fetch_sub", "lock-unlock", "notify_all"] ∧
     Gen.Timer.svcDrainRestoresAcceptingOnTimeout = true ∧ Gen.Timer.svcDrainSweepOp = ">" ∧
     Gen.Timer.svcStopClearsAccepting = true ∧ Gen.Timer.svcStopPublishesStoppedUnderLock = true ∧
-    Gen.Timer.svcPeriodicCancelGuard = true := by decide
+    Gen.Timer.svcPeriodicCancelGuard = true ∧ Gen.Timer.svcCancelClosesGuardAlways = true := by decide
 
 /-- **S1 (at most once, nothing collected is lost).** After every history, the invocations whose handler started, those skipped
 because `cancel` closed their guard, and those still waiting in the loop thread's `ready` list are — as a multiset — exactly
@@ -261,15 +261,36 @@ theorem S2_collected_is_due (L : Limits) (ops : List Tsvc.Op) (now : Int) :
 example : ((collect (Tsvc.run ⟨100, 10, 86400000000000⟩ [.schedPer 1000000 2000000]).1 7500000).2.1.map (fun e => (e.id, e.k, e.tp))) =
     [(1, 1, 3000000), (1, 2, 5000000), (1, 3, 7000000)] := by decide
 
-/-- **S3a (successful cancel).** After `cancel(id)` has answered `true` in any reachable state, whatever happens next (`rest` is any
-continuation: other threads, the loop thread, handlers already collected before the cancel and waiting behind a slow handler),
-no handler of that id ever STARTS. -/
+/-- **S3a (successful cancel).** After `cancel(id)` has answered `true` in any reachable state — reached by ANY history `ops`, in
+particular one in which a `drain()` (or the `drain(5000)` inside `stop()`) has passed its gate and swept, marking periodic entries
+cancelled without closing their guards, has timed out and put the service back to Running, or is still waiting — whatever happens
+next (`rest` is any continuation: other threads, further drain/stop steps, the loop thread, handlers already collected before the
+cancel and waiting behind a slow handler), no handler of that id ever STARTS.  The proof uses the source fact
+`Gen.Timer.svcCancelClosesGuardAlways` (lemma `cancel_true_dead`): with the guard closed only on the `!entry.canceled` transition
+the statement is false (`S3_conditional_close_witness`). -/
 theorem S3_cancelled_never_starts (L : Limits) (ops : List Tsvc.Op) (id : Nat) (rest : List Tsvc.Op)
     (h : (Tsvc.cancel (Tsvc.run L ops).1 id).2 = true) :
     ∀ e ∈ started (Tsvc.trace L (Tsvc.cancel (Tsvc.run L ops).1 id).1 rest), e.id ≠ id := by
   obtain ⟨w, i⟩ := Tsvc.inv_run L ops
   obtain ⟨d, hle⟩ := cancel_true_dead _ _ id w i h
   exact dead_trace L id rest _ d hle
+
+/-- non-vacuity (the drain-sweep window): A (one-shot) and P (periodic) are collected together, A's handler is running, P's invocation
+waits in `ready`; a `drain` passes its gate and sweeps (P's periodic entry is now marked cancelled, its guard still open);
+`cancel(P)` answers `true` and closes the guard; after A has returned the loop thread SKIPS P's invocation.  `rest` in S3a may
+contain any number of `drainGate / drainSweep / drainTimeout / drainRestore / stopFlag …` steps before and after the cancel. -/
+example :
+    let s := (Tsvc.run ⟨100, 10, 86400000000000⟩ [.schedAt 0 5000000, .schedPer 0 5000000, .collect 5000000, .hstart, .drainGate, .drainSweep 5000000 50000000]).1
+    s.periodic.map (fun p => (p.id, p.canceled)) = [(2, true)] ∧ s.closed = [] ∧ s.ready.map (·.id) = [2] ∧
+    (Tsvc.cancel s 2).2 = true ∧
+    (hstart (hend (Tsvc.cancel s 2).1)).2.skippedId = some 2 := by decide
+
+/-- **On record (seeded change C08-b).** If `cancel` closed the guard only on the transition `!entry.canceled` (the other possible
+position of the store, `cancelWith false`), the same history lets P's handler START after `cancel(P)` returned `true`. -/
+theorem S3_conditional_close_witness :
+    let s := (Tsvc.run ⟨100, 10, 86400000000000⟩ [.schedAt 0 5000000, .schedPer 0 5000000, .collect 5000000, .hstart, .drainGate, .drainSweep 5000000 50000000]).1
+    (Tsvc.cancelWith false s 2).2 = true ∧
+    (hstart (hend (Tsvc.cancelWith false s 2).1)).2.startedId = some 2 := by decide
 
 /-- non-vacuity (the F41 window): a one-shot and a periodic timer are collected together; the one-shot handler is running, the
 periodic invocation waits in `ready`; `cancel` of the periodic timer answers `true` -/
@@ -282,7 +303,7 @@ invocation is started, skipped-by-cancel or waiting (S1), never dropped. -/
 theorem S3_false_means_not_pending (L : Limits) (ops : List Tsvc.Op) (id : Nat) (h : (Tsvc.cancel (Tsvc.run L ops).1 id).2 = false) :
     (∀ r ∈ (Tsvc.run L ops).1.records, r.id = id → r.canceled = true) ∧ ∀ p ∈ (Tsvc.run L ops).1.periodic, p.id ≠ id := by
   obtain ⟨w, _⟩ := Tsvc.inv_run L ops
-  unfold Tsvc.cancel at h
+  unfold Tsvc.cancel Tsvc.cancelWith at h
   simp only at h
   cases hp : findPer (Tsvc.run L ops).1.periodic id with
   | some p => simp [hp] at h
